@@ -7,7 +7,7 @@ verus! {
 //@ broadcast vax::vax_group rax::rax_group r2x_group otx_group lemma_no_styles vstd::utf8::group_utf8_lib vstd::string::group_string_axioms
 
 impl DiffType {
-    //@ stub src/delta.rs DiffType::n_parents spec=delta.n_parents
+    //@ fn src/delta.rs DiffType::n_parents spec=delta.n_parents
 }
 //@ stub src/handlers/hunk.rs is_word_diff spec=hunk.is_word_diff
 
